@@ -12,6 +12,7 @@
   * `recreateStreamingClient`      -> `kill` (epoch CAS: the winner fails the pending requests of ITS forwarded host,
                                        the loser only re-creates the stream)
   * the caller's `select` in `sendBatchRequest` -> `cancel`, `timeout`, `wake`, `close`
+  * the recover/restart path of `batchSendLoop`      -> `panicRecover` (the builder and its id allocator are kept)
   An entry is identified by its handle = index in `State.entries` (pointer identity in Go).
   Ghost fields (no counterpart in the code; only written, never read by the transitions): `Entry.ncomp`, `Entry.nret`,
   `Entry.got`, `Slot.gen`, `Stream.gen`, `Stream.sib`, `State.allocLog`, `State.respLog`, `State.wireLog`, `State.loserSeen`.
@@ -407,6 +408,7 @@ inductive Op
   | lockrec (cid : Nat) (b : Bool)
   | setlimit (cid : Nat) (limit : Nat)
   | cfgcancel (b : Bool)
+  | panicRecover            -- batchSendLoop panics, recovers and restarts itself
   deriving Repr
 
 def fetchLoop (pri : Nat → Nat) (max : Nat) : Nat → List Nat → List Nat → List Nat × List Nat
@@ -450,6 +452,9 @@ def step (s : State) : Op → State
   | .lockrec cid b => { s with clients := updClient s.clients cid fun c => { c with recreating := b } }
   | .setlimit cid l => { s with clients := updClient s.clients cid fun c => { c with limit := l } }
   | .cfgcancel b => { s with cancelOnNoConn := b }
+  -- the deferred recover of batchSendLoop only counts the panic and starts a new loop goroutine: the request builder
+  -- (id allocator, queued entries) and every in-flight table stay as they are
+  | .panicRecover => s
 
 def init (nclients limit nfwd : Nat) : State :=
   { clients := List.replicate nclients { limit := limit }, nfwd := nfwd }
